@@ -168,7 +168,7 @@ QueryOK(q, s) ==
 SentMsgs(evs) == [i \in DOMAIN EvsOf(evs, "MessageSent") |-> EvsOf(evs, "MessageSent")[i].msg]
 
 Applies(p, pre, m, f, o) ==
-  CASE p = "C01" -> HasAtt(m)
+  CASE p = "C01" -> TRUE
     [] p = "C02" -> TRUE
     [] p = "C03" -> m.type = "ReceiveMessage" /\ (m.wire.k = "msg" => m.wire.caller.hi = "z")
     [] p = "C04" -> TRUE
@@ -192,11 +192,14 @@ LensR(p, pre, m, f, o, r) ==
       both == res = "ok" /\ exp.res = "ok"
   IN
   CASE p = "C01" ->
-         \* the verifier accepts exactly the quorum attestations; no handler accepts without one
-         /\ (o.vas = "ok") <=> AttestDecl(pre.attesters, pre.threshold, m.att)
-         /\ res = "ok" => AttestDecl(pre.attesters, pre.threshold, m.att)
-         /\ AttestDecl(pre.attesters, pre.threshold, m.att)
-              => DistinctEnabledSigners(pre.attesters, m.att) >= pre.threshold
+         \* "currently enabled" and "threshold" mean what the history of transactions established
+         /\ o.post.attesters = r.post.attesters /\ o.post.threshold = r.post.threshold
+         /\ HasAtt(m) =>
+              \* the verifier accepts exactly the quorum attestations; no handler accepts without one
+              /\ (o.vas = "ok") <=> AttestDecl(pre.attesters, pre.threshold, m.att)
+              /\ res = "ok" => AttestDecl(pre.attesters, pre.threshold, m.att)
+              /\ AttestDecl(pre.attesters, pre.threshold, m.att)
+                   => DistinctEnabledSigners(pre.attesters, m.att) >= pre.threshold
     [] p = "C02" ->
          LET isRecv == m.type = "ReceiveMessage" /\ m.wire.k = "msg"
              key    == [d |-> m.wire.src, n |-> m.wire.nonce] IN
@@ -211,6 +214,10 @@ LensR(p, pre, m, f, o, r) ==
                     /\ EvsOf(o.evs, "MintAndWithdraw") = EvsOf(exp.evs, "MintAndWithdraw")
                     /\ EvsOf(o.evs, "MessageReceived") = EvsOf(exp.evs, "MessageReceived")
                     /\ Ledger(o.post) = Ledger(r.post)
+         \* what is requested from the token factory (in whose name, to whom, which denom, how much),
+         \* whatever the factory then answers
+         /\ (CallsOf(o.calls, "Mint") # <<>> /\ CallsOf(exp.calls, "Mint") # <<>>) =>
+               [CallsOf(o.calls, "Mint")[1] EXCEPT !.ok = TRUE] = [CallsOf(exp.calls, "Mint")[1] EXCEPT !.ok = TRUE]
          /\ (res = "ok" /\ ~IsModuleRecv(m)) => CallsOf(o.calls, "Mint") = <<>>
          /\ (res = "ok" /\ IsModuleRecv(m)) => Len(CallsOf(o.calls, "Mint")) = 1
          /\ res # "ok" => Ledger(o.post) = Ledger(pre)
@@ -221,6 +228,12 @@ LensR(p, pre, m, f, o, r) ==
          /\ (res = "ok" /\ m.type \notin DepTypes) =>
                (CallsOf(o.calls, "Transfer") = <<>> /\ CallsOf(o.calls, "Burn") = <<>>)
          /\ o.post.bal[MODULE_ACC] = pre.bal[MODULE_ACC]                    \* nothing is left in the module account
+         \* a replacement of a deposit speaks for the same burn: token, amount and depositor are the original's
+         /\ (res = "ok" /\ m.type = "ReplaceDepositForBurn" /\ m.orig.k = "msg" /\ m.orig.body.k = "burn") =>
+               \A i \in DOMAIN SentMsgs(o.evs) :
+                  LET w == SentMsgs(o.evs)[i] IN
+                  w.k = "msg" /\ w.body.k = "burn" /\ w.body.amt = m.orig.body.amt /\ w.body.tok = m.orig.body.tok
+                  /\ w.body.sender = m.orig.body.sender /\ w.nonce = m.orig.nonce
          /\ \A i \in DOMAIN SentMsgs(o.evs) :
                LET w == SentMsgs(o.evs)[i] IN
                w.k = "msg" /\ w.sender = (IF m.type \in DepTypes \cup {"ReplaceDepositForBurn"}
